@@ -2,6 +2,7 @@ import Driver.Sexp
 import Rcgen.Model.Sign
 import Rcgen.Model.Strings
 import Rcgen.Model.Sha2
+import Rcgen.Model.Import
 /- decoding protocol s-expressions into model values -/
 namespace Driver
 open Rcgen Rcgen.Model Sexp
@@ -300,5 +301,57 @@ def decText (x : Sexp) : R (List Char) := do
   match String.fromUTF8? b.toByteArray with
   | some s => pure s.toList
   | none => .error "text is not UTF-8"
+
+def encDateTime (d : DateTime) : Sexp :=
+  .list [.atom "dt", ofInt d.year, ofNat d.month, ofNat d.day, ofNat d.hour, ofNat d.minute,
+         ofNat d.second, ofNat d.nanos, ofInt d.offset]
+
+def encDnItems (dn : DistinguishedName) : List Sexp :=
+  dn.iter.map (fun e => .list [encDnType e.1, encDnValue e.2])
+
+def encSan : SanType → Sexp
+  | .rfc822 b => .list [.atom "rfc822", ofBytes b]
+  | .dns b => .list [.atom "dns", ofBytes b]
+  | .uri b => .list [.atom "uri", ofBytes b]
+  | .ip o => .list [.atom "ip", ofBytes o]
+  | .otherName oid v => .list [.atom "other", .list (oid.map ofNat), ofBytes v]
+
+def encSubtree : GeneralSubtree → Sexp
+  | .rfc822 b => .list [.atom "rfc822", ofBytes b]
+  | .dns b => .list [.atom "dns", ofBytes b]
+  | .directoryName dn => .list [.atom "dirname", .list (.atom "dn" :: encDnItems dn)]
+  | .ip (.v4 a m) => .list [.atom "ip4", ofBytes a, ofBytes m]
+  | .ip (.v6 a m) => .list [.atom "ip6", ofBytes a, ofBytes m]
+
+def encIsCa : IsCa → Sexp
+  | .noCa => .atom "none"
+  | .explicitNoCa => .atom "explicit"
+  | .ca none => .list [.atom "ca", .atom "none"]
+  | .ca (some n) => .list [.atom "ca", ofNat n]
+
+def encKid : KeyIdMethod → Sexp
+  | .sha256 => .atom "sha256" | .sha384 => .atom "sha384" | .sha512 => .atom "sha512"
+  | .preSpecified b => .list [.atom "pre", ofBytes b]
+
+/-- same canonical text as the harness's `PCert::sexp` -/
+def encParams (p : CertParams) : Sexp :=
+  .list [.atom "params",
+    .list [.atom "nb", encDateTime p.notBefore],
+    .list [.atom "na", encDateTime p.notAfter],
+    .list [.atom "serial", match p.serial with | some s => ofBytes s | none => .atom "none"],
+    .list (.atom "san" :: p.sans.map encSan),
+    .list (.atom "dn" :: encDnItems p.dn),
+    .list [.atom "ca", encIsCa p.isCa],
+    .list (.atom "ku" :: p.keyUsages.map (fun k => .atom (kuName k))),
+    .list (.atom "eku" :: p.ekus.map ekuSexp),
+    .list [.atom "nc", match p.nameConstraints with
+      | none => .atom "none"
+      | some nc => .list [.list (.atom "permitted" :: nc.permitted.map encSubtree),
+                          .list (.atom "excluded" :: nc.excluded.map encSubtree)]],
+    .list (.atom "crldp" :: p.crlDps.map (fun d => .list (d.uris.map ofBytes))),
+    .list (.atom "custom" :: p.customExts.map (fun e =>
+      .list [.list (e.oid.map ofNat), ofBool e.critical, ofBytes e.content])),
+    .list [.atom "aki", ofBool p.useAki],
+    .list [.atom "kid", encKid p.keyIdMethod]]
 
 end Driver
